@@ -67,7 +67,7 @@ theorem runAcc_eq (w : World) (prog : Program) (inp : Inputs) (N : Nat) :
 def DoneOK (w : World) (inp : Inputs) (n m : Nat) (c : MethodCfg) (ss : List Emission.State)
     (dd : Crew.DaySt) (d : Done) : Prop :=
   d.out ∈ completed dd ∧ d.sv.m = m ∧ d.sv.trd = c.trd ∧ d.sv.mdl = c.mdl ∧ d.sv.site = d.out.req.site ∧
-  d.sv.cfg = sensorCfg w c d.out.req.site ∧ ∃ covs, d.sv.xs = mkXs w inp n m ss covs
+  d.sv.cfg = sensorCfg w inp n m c d.out.req.site ∧ ∃ covs, d.sv.xs = mkXs w inp n m ss covs
 
 theorem foldl_surveyOne (w : World) (inp : Inputs) (n m : Nat) (c : MethodCfg) (ss : List Emission.State)
     (lt : Nat → Int) (P : Done → Prop)
@@ -274,10 +274,10 @@ theorem sim_tag_chain (w : World) (prog : Program) (inp : Inputs) (info : EmInfo
         | true => rfl
         | false =>
           exfalso
-          have hc' : d.sv.cfg = .site t.cfg.err := by rw [hcfg]; simp [sensorCfg, htg]
+          have hc' : d.sv.cfg = .site (inp.shift n t.m d.out.req.site 0 0) := by rw [hcfg]; simp [sensorCfg, htg]
           have : Sensor.tagTargets d.rep = [] := by
             rw [d.hrep]
-            have hsv : d.sv = { cfg := .site t.cfg.err, m := d.sv.m, trd := d.sv.trd, mdl := d.sv.mdl,
+            have hsv : d.sv = { cfg := .site (inp.shift n t.m d.out.req.site 0 0), m := d.sv.m, trd := d.sv.trd, mdl := d.sv.mdl,
                                 site := d.sv.site, xs := d.sv.xs } := by
               cases hsv' : d.sv; simp_all
             rw [hsv]; exact site_survey_no_targets ..
@@ -907,7 +907,7 @@ theorem surveyOne_zero (w : World) (inp : Inputs) (hz : ∀ n m e, inp.spatial n
       have hzc : Sensor.ZeroCoverage m (mkXs w inp n m ss acc.1) := by
         intro x hx
         exact ⟨lookup_false m _ (hxs x hx).1, (hxs x hx).2⟩
-      have hq := Sensor.C05_zero_coverage_is_quiet (sensorCfg w c o.req.site) m c.mdl o.req.site _ hzc
+      have hq := Sensor.C05_zero_coverage_is_quiet (sensorCfg w inp n m c o.req.site) m c.mdl o.req.site _ hzc
       exact ⟨hq.2.1, hq.2.2⟩
 
 theorem surveyAll_zero (w : World) (inp : Inputs) (hz : ∀ n m e, inp.spatial n m e = false) (n m : Nat)
@@ -1897,6 +1897,37 @@ theorem sim_never_worse (w : World) (prog : Program) (inp : Inputs) (hw : WF w) 
   subst hP; subst hB
   exact Emission.C03_le_baseline_all_E info.p _ N
 
+/-! ### the calendar the model computes -/
+
+def validDate (d : Sched.Date) : Prop := 1 ≤ d.m ∧ d.m ≤ 12 ∧ 1 ≤ d.d ∧ d.d ≤ daysIn d.y d.m
+
+theorem daysIn_pos (y m : Nat) : 28 ≤ daysIn y m := by
+  unfold daysIn; split
+  · split <;> omega
+  · split <;> omega
+
+theorem nextDate_valid (d : Sched.Date) (h : validDate d) : validDate (nextDate d) := by
+  obtain ⟨h1, h2, h3, h4⟩ := h
+  unfold nextDate
+  split
+  · exact ⟨h1, h2, by simp only; omega, by simp only; omega⟩
+  · split
+    · have := daysIn_pos d.y (d.m + 1)
+      exact ⟨by simp only; omega, by simp only; omega, Nat.le_refl 1, by simp only; omega⟩
+    · have := daysIn_pos (d.y + 1) 1
+      exact ⟨Nat.le_refl 1, by simp only; omega, Nat.le_refl 1, by simp only; omega⟩
+
+/-- every date of the computed calendar is a calendar date (month 1..12, day within the month) -/
+theorem dateOf_valid (start : Sched.Date) (h : validDate start) (n : Nat) : validDate (dateOf start n) := by
+  induction n with
+  | zero => exact h
+  | succ n ih => exact nextDate_valid _ ih
+
+/-- leap years: 2024-02-28 + 2 days, 2023-02-28 + 1 day, 2024-12-31 + 1 day, 1900 is no leap year -/
+example : dateOf ⟨2024, 2, 28⟩ 2 = ⟨2024, 3, 1⟩ ∧ dateOf ⟨2023, 2, 28⟩ 1 = ⟨2023, 3, 1⟩ ∧
+    dateOf ⟨2024, 12, 31⟩ 1 = ⟨2025, 1, 1⟩ ∧ dateOf ⟨2024, 1, 1⟩ 366 = ⟨2025, 1, 1⟩ ∧ isLeap 1900 = false := by
+  decide +kernel
+
 /-! ### the statements at full strength, what is proved, and why (b), (c) need a well-formed scenario -/
 
 /-- (b) and (c) for *all* worlds -/
@@ -1921,7 +1952,8 @@ def unsortedWorld : World :=
 
 def quietInputs : Inputs :=
   { date := fun n => { y := 2023, m := 1, d := n + 1 }, spatial := fun _ _ _ => true, temporal := fun _ _ _ => true,
-    travel := fun _ _ _ => 30, workable := fun _ _ _ => true, daylightMin := fun _ => 1440, repairCost := fun _ => 50 }
+    travel := fun _ _ _ => 30, workable := fun _ _ _ => true, daylightMin := fun _ => 1440, repairCost := fun _ => 50,
+    shift := fun _ _ _ _ _ => 0 }
 
 theorem unsortedWorld_not_wf : ¬ WF unsortedWorld := by unfold WF; decide +kernel
 
